@@ -301,9 +301,15 @@ class Program:
         raw, hsh, nfiles = _facts.load_raw(config, repo or _facts.REPO)
         # undo behaviour-preserving renames / helper extractions relative to the reference tree (normalize.py)
         self.normalised = []
+        self.gone = {}
+        self.ref = {}
         if not os.environ.get("VERIF_NO_NORMALIZE"):
             from . import normalize as _normalize
-            self.normalised = _normalize.normalize(raw)
+            self.normalised = _normalize.normalize(raw, config)
+            self.ref = _normalize.load_ref() or {}
+            self.gone = _normalize.gone_functions(raw, self.ref, config)
+            for h, cs in sorted(self.gone.items()):
+                self.normalised.append("function %s of the reference tree is gone; what the rules say about it is looked for in its former caller(s) %s" % (h, ", ".join(cs)))
         self.config = config
         self.hash = hsh
         self.nfiles = nfiles
@@ -353,7 +359,27 @@ class Program:
                 "config": self.config}
 
     def body(self, bid):
-        return self.bodies.get(bid)
+        b = self.bodies.get(bid)
+        if b is None and bid in self.gone and len(self.gone[bid]) == 1:
+            # a helper of the reference tree that was inlined into its only caller: that caller stands in for it
+            b = self.bodies.get(self.gone[bid][0])
+        return b
+
+    def ref_callees(self, fid):
+        r = (self.ref.get("fns") or {}).get(fid) or (self.ref.get("closures") or {}).get(fid)
+        return set(r["callees"]) if r else set()
+
+    def inlined_events_of(self, gone_fid, body_id):
+        """callee names that stand for "the body of `gone_fid`" inside `body_id`, one of the callers it was inlined into:
+        what the gone function called in the reference tree and this caller did not"""
+        if gone_fid in self.bodies or gone_fid not in self.gone:
+            return set()
+        import re as _re
+        root = _re.sub(r"(::\{closure#\d+\})+$", "", body_id)
+        if body_id not in self.gone[gone_fid] and root not in self.gone[gone_fid]:
+            return set()
+        mine = self.ref_callees(body_id) | self.ref_callees(root)
+        return {c for c in self.ref_callees(gone_fid) if c not in mine and not c.startswith(("core::ops::", "core::convert::", "core::fmt::", "log::", "core::result::", "core::option::", "alloc::"))}
 
     def find_bodies(self, regex):
         r = re.compile(regex)
